@@ -44,6 +44,44 @@ struct Spec {
     trailing: usize,
 }
 
+/// Same image with the tables FIRST (header | phdrs | shdrs | section data): most proper prefixes still open (C18 family).
+fn build_early(s: &Spec) -> Vec<u8> {
+    let late = build(s);
+    let nph = s.phdrs.len();
+    let nsec = s.secs.len();
+    let tables = 56 * nph + 64 * nsec;
+    let old_phoff = u64a(&late, 32).unwrap() as usize;
+    let old_shoff = u64a(&late, 40).unwrap() as usize;
+    let data_end = if nph > 0 { old_phoff } else { old_shoff };
+    let mut f = late[..64].to_vec();
+    let phoff = if nph > 0 { 64usize } else { 0 };
+    let shoff = 64 + 56 * nph;
+    if nph > 0 {
+        f.extend_from_slice(&late[old_phoff..old_phoff + 56 * nph]);
+    }
+    f.extend_from_slice(&late[old_shoff..old_shoff + 64 * nsec]);
+    f.extend_from_slice(&late[64..data_end]);
+    f.extend(std::iter::repeat(0xa5u8).take(s.trailing));
+    f[32..40].copy_from_slice(&(phoff as u64).to_le_bytes());
+    f[40..48].copy_from_slice(&(shoff as u64).to_le_bytes());
+    // section offsets move by the size of the tables (overridden offsets stay as they are)
+    for (i, sc) in s.secs.iter().enumerate() {
+        if sc.off_override.is_none() {
+            let p = shoff + 64 * i + 24;
+            let o = u64a(&f, p).unwrap() + tables as u64;
+            f[p..p + 8].copy_from_slice(&o.to_le_bytes());
+        }
+    }
+    for i in 0..nph {
+        let p = phoff + 56 * i + 8;
+        let o = u64a(&f, p).unwrap();
+        if o >= 64 {
+            f[p..p + 8].copy_from_slice(&(o + tables as u64).to_le_bytes());
+        }
+    }
+    f
+}
+
 /// ELF64 little-endian image: header | section data | phdrs | shdrs
 fn build(s: &Spec) -> Vec<u8> {
     let mut f = vec![0u8; 64];
@@ -567,6 +605,93 @@ fn check_file(label: &str, f: &[u8]) -> Result<(), Failure> {
     Ok(())
 }
 
+/// C18: every query's answer on `f`, as text with positions relative to the start of `f` (None when the file does not open).
+fn answers(f: &[u8]) -> Option<Vec<(String, Result<String, String>)>> {
+    let e = ElfBytes::<AnyEndian>::minimal_parse(f).ok()?;
+    let mut out: Vec<(String, Result<String, String>)> = Vec::new();
+    let rng = |s: &[u8]| if s.is_empty() { "empty".to_string() } else { format!("[{}+{}]", off_of(f, s), s.len()) };
+    let shdrs: Vec<elf::section::SectionHeader> = e.section_headers().map(|t| t.iter().collect()).unwrap_or_default();
+    let phdrs: Vec<elf::segment::ProgramHeader> = e.segments().map(|t| t.iter().collect()).unwrap_or_default();
+    out.push(("open".into(), Ok(format!("{:?} shdrs={:?} phdrs={:?}", e.ehdr, shdrs, phdrs))));
+    let strtab_desc = |st: &elf::string_table::StringTable| -> String {
+        (0..12).map(|i| match st.get_raw(i) { Ok(s) => rng(s), Err(_) => "E".into() }).collect::<Vec<_>>().join(",")
+    };
+    out.push(("section_headers_with_strtab".into(), match e.section_headers_with_strtab() {
+        Ok((sh, st)) => Ok(format!("{:?} {:?}", sh.map(|t| t.len()), st.as_ref().map(|s| strtab_desc(s)))),
+        Err(x) => Err(format!("{x:?}")),
+    }));
+    for name in [".text", "", "ax", "lib1", ".text.hot", "lib"] {
+        out.push((format!("section_header_by_name({name:?})"), e.section_header_by_name(name).map(|o| format!("{o:?}")).map_err(|x| format!("{x:?}"))));
+    }
+    out.push(("symbol_table".into(), e.symbol_table().map(|o| o.map(|(t, s)| format!("{:?} {}", t.iter().collect::<Vec<_>>(), strtab_desc(&s))).unwrap_or("None".into())).map_err(|x| format!("{x:?}"))));
+    out.push(("dynamic_symbol_table".into(), e.dynamic_symbol_table().map(|o| o.map(|(t, s)| format!("{:?} {}", t.iter().collect::<Vec<_>>(), strtab_desc(&s))).unwrap_or("None".into())).map_err(|x| format!("{x:?}"))));
+    out.push(("dynamic".into(), e.dynamic().map(|o| o.map(|t| format!("{:?}", t.iter().collect::<Vec<_>>())).unwrap_or("None".into())).map_err(|x| format!("{x:?}"))));
+    out.push(("find_common_data".into(), e.find_common_data().map(|c| format!("symtab={:?} dynsyms={:?} dynamic={:?} sysv={} gnu={} strs={:?}/{:?}",
+        c.symtab.as_ref().map(|t| t.iter().collect::<Vec<_>>()), c.dynsyms.as_ref().map(|t| t.iter().collect::<Vec<_>>()), c.dynamic.as_ref().map(|t| t.iter().collect::<Vec<_>>()),
+        c.sysv_hash.is_some(), c.gnu_hash.is_some(), c.symtab_strs.as_ref().map(|s| strtab_desc(s)), c.dynsyms_strs.as_ref().map(|s| strtab_desc(s)))).map_err(|x| format!("{x:?}"))));
+    out.push(("symbol_version_table".into(), match e.symbol_version_table() {
+        Ok(None) => Ok("None".into()),
+        Ok(Some(t)) => Ok((0..9).map(|i| format!("{:?}/{:?}", t.get_requirement(i).map(|o| o.map(|r| (r.file.to_string(), r.name.to_string(), r.hash, r.flags, r.hidden))).map_err(|x| format!("{x:?}")),
+            t.get_definition(i).map(|o| o.map(|d| (d.hash, d.flags, d.hidden, d.names.map(|n| n.map(|s| s.to_string()).unwrap_or("E".into())).collect::<Vec<_>>()))).map_err(|x| format!("{x:?}")))).collect::<Vec<_>>().join(";")),
+        Err(x) => Err(format!("{x:?}")),
+    }));
+    for (i, sh) in shdrs.iter().enumerate() {
+        out.push((format!("section_data({i})"), e.section_data(sh).map(|(d, c)| format!("{} {:?}", rng(d), c)).map_err(|x| format!("{x:?}"))));
+        out.push((format!("section_data_as_strtab({i})"), e.section_data_as_strtab(sh).map(|s| strtab_desc(&s)).map_err(|x| format!("{x:?}"))));
+        out.push((format!("section_data_as_rels({i})"), e.section_data_as_rels(sh).map(|it| format!("{:?}", it.collect::<Vec<_>>())).map_err(|x| format!("{x:?}"))));
+        out.push((format!("section_data_as_relas({i})"), e.section_data_as_relas(sh).map(|it| format!("{:?}", it.collect::<Vec<_>>())).map_err(|x| format!("{x:?}"))));
+        out.push((format!("section_data_as_notes({i})"), e.section_data_as_notes(sh).map(|it| format!("{:?}", it.collect::<Vec<_>>())).map_err(|x| format!("{x:?}"))));
+    }
+    for (i, ph) in phdrs.iter().enumerate() {
+        out.push((format!("segment_data({i})"), e.segment_data(ph).map(|d| rng(d)).map_err(|x| format!("{x:?}"))));
+        out.push((format!("segment_data_as_notes({i})"), e.segment_data_as_notes(ph).map(|it| format!("{:?}", it.collect::<Vec<_>>())).map_err(|x| format!("{x:?}"))));
+    }
+    Some(out)
+}
+
+/// C18: on every proper prefix of `full` (and on `full` with bytes appended) each query is Err or exactly the answer on `full`.
+fn check_prefixes(label: &str, full: &[u8]) -> Result<(), Failure> {
+    let whole = match catch_unwind(AssertUnwindSafe(|| answers(full))) {
+        Ok(Some(a)) => a,
+        Ok(None) => return Ok(()),
+        Err(_) => fail!("C01/C18 a query panicked on the complete file [{label}]"),
+    };
+    let compare = |what: &str, other: &[u8]| -> Result<(), Failure> {
+        let a = match catch_unwind(AssertUnwindSafe(|| answers(other))) {
+            Ok(Some(a)) => a,
+            Ok(None) => return Ok(()),
+            Err(_) => fail!("C01/C18 a query panicked on the {what} [{label}]"),
+        };
+        for (q, r) in &a {
+            if let Ok(x) = r {
+                match whole.iter().find(|(wq, _)| wq == q) {
+                    Some((_, Ok(y))) if x == y => {}
+                    Some((_, wr)) => {
+                        // show both answers from shortly before the first difference
+                        let y0 = match wr { Ok(y) => y.as_str(), Err(y) => y.as_str() };
+                        let d = x.bytes().zip(y0.bytes()).position(|(a, b)| a != b).unwrap_or(x.len().min(y0.len()));
+                        let from = d.saturating_sub(40);
+                        let cut = |t: &str| t.get(from..t.len().min(from + 160)).unwrap_or("").to_string();
+                        fail!("C18 {what}: {q} answers Ok(..{}) but the complete file answers {}(..{}) [{label}]", cut(x), if wr.is_ok() { "Ok" } else { "Err" }, if wr.is_ok() { cut(y0) } else { y0.to_string() })
+                    }
+                    None => fail!("C18 {what}: {q} has an answer that the complete file does not have (different tables) [{label}]"),
+                }
+            }
+        }
+        Ok(())
+    };
+    for n in 0..full.len() {
+        compare(&format!("prefix of {n} of {} bytes", full.len()), &full[..n])?;
+    }
+    for (k, fill) in [(1usize, 0u8), (7, 0xff), (64, 0x5a)] {
+        let mut ext = full.to_vec();
+        ext.extend(std::iter::repeat(fill).take(k));
+        // appended bytes change no answer: compare in both directions (the extended file is a complete file whose prefix is `full`)
+        compare(&format!("file extended by {k} bytes"), &ext)?;
+    }
+    Ok(())
+}
+
 fn symtab_data(n: usize) -> Vec<u8> {
     (0..24 * n).map(|i| (i * 5 + 1) as u8).collect()
 }
@@ -795,6 +920,39 @@ fn run() -> Result<usize, Failure> {
         let spec = Spec { secs, phdrs: vec![], shstrndx: snd, xnum: false, shentsize: 64, trailing: 0 };
         note(check_file(&format!("section names in order {perm:?}"), &build(&spec)));
         n += 1;
+    }
+    // Family 5 (C18): tables-first images of the families above; every proper prefix and a few extensions
+    {
+        let mut specs: Vec<(String, Spec)> = Vec::new();
+        let mut secs = vec![sec(0, vec![])];
+        for (i, k) in kinds.iter().enumerate() {
+            let mut s = k.clone();
+            if s.ty == SHT_SYMTAB { s.link = 6; }
+            if s.ty == SHT_DYNSYM { s.link = 7; }
+            s.name = [1u32, 4, 1, 4, 1][i];
+            secs.push(s);
+        }
+        secs.push(Sec { name: 1, ..sec(SHT_STRTAB, strtab_data(1)) });
+        secs.push(Sec { name: 4, ..sec(SHT_STRTAB, strtab_data(2)) });
+        specs.push(("common kinds".into(), Spec { secs: secs.clone(), phdrs: vec![(1u32, 0u64, 64u64), (PT_DYNAMIC, 64 + 48 + 72, 32), (4, 64, 20)], shstrndx: 6, xnum: false, shentsize: 64, trailing: 0 }));
+        specs.push(("common kinds, extended numbering".into(), Spec { secs: secs.clone(), phdrs: vec![(PT_DYNAMIC, 64 + 48 + 72, 32)], shstrndx: 7, xnum: true, shentsize: 64, trailing: 0 }));
+        let mut vs = vec![sec(0, vec![])];
+        for k in &vk {
+            let mut s = k.clone();
+            if s.ty == SHT_GNU_VERNEED { s.link = 4; }
+            if s.ty == SHT_GNU_VERDEF { s.link = 5; }
+            vs.push(s);
+        }
+        vs.push(Sec { name: 1, ..sec(SHT_STRTAB, strtab_data(5)) });
+        vs.push(Sec { name: 4, ..sec(SHT_STRTAB, strtab_data(6)) });
+        vs.push(Sec { name: 1, ..sec(7, vec![4, 0, 0, 0, 4, 0, 0, 0, 3, 0, 0, 0, b'G', b'N', b'U', 0, 1, 2, 3, 4, 4, 0, 0, 0, 0, 0, 0, 0, 9, 0, 0, 0, b'X', b'Y', b'Z', 0]) });
+        specs.push(("symbol versioning + notes".into(), Spec { secs: vs, phdrs: vec![], shstrndx: 5, xnum: false, shentsize: 64, trailing: 0 }));
+        for (label, spec) in specs {
+            let f = build_early(&spec);
+            note(check_file(&format!("tables-first image: {label}"), &f));
+            note(check_prefixes(&format!("tables-first image: {label}"), &f));
+            n += f.len() + 3;
+        }
     }
     Ok(n)
 }
